@@ -358,7 +358,7 @@ def run(tier, seed):
                                     "explanation": "same globals, different definition order / file partition: "
                                                    "acceptance or program behaviour differs"})
         v.coverage["distinct_nontrivial"] = accepted
-        v.coverage["programs"] = {"generated": n_prog, "accepted_in_base_order": accepted, "rejected_in_base_order": rejected,
+        v.coverage["program_stats"] = {"generated": n_prog, "accepted_in_base_order": accepted, "rejected_in_base_order": rejected,
                                   "variants_compared": v.coverage["evaluations"], "sizes": sizes, "global_kinds": kinds_hist}
         v.coverage["rule"] = ("generated programs with 3-12 interdependent globals; every variant (permutation of the global "
                               "order incl. position of main and of the import lines; partition into <=3 files with the "
